@@ -212,6 +212,7 @@ def size_clauses():
         else:
             out.append(f'[C03:size-{name[8:]}] form.0 == {code:#x} ==> res is None')
     out.append('[C03:size-unknown-form] !known_form(form.0 as nat) ==> res is None')
+    out.append('res is Some ==> form.0 != 0x16')
     out.append(f'[C03:size-table] (res matches Some(n) ==> fixed_size(form.0 as nat, {ENC}) == Some(n as nat)) && '
                f'(res is None ==> fixed_size(form.0 as nat, {ENC}) is None)')
     return out
@@ -255,7 +256,9 @@ def derived_eq(ty):
 
 
 def populate(ctx, sk):
-    sk.add('constants', dw_last_const(ctx, 'DwForm'), label='DwForm(last)')
+    last = dw_last_const(ctx, 'DwForm')
+    if last and not any(isinstance(c[0], str) and last in c[0] for c in sk.mods['constants']['chunks']):
+        sk.add('constants', last, label='DwForm(last)')     # only with an old lib.dw_consts
     sk.add('constants', derived_eq('DwForm') + '\n' + derived_eq('DwAt'), label='derived-eq')
     sk.add('common', derived_eq('Format'), label='derived-eq')
     ab = Source('read/abbrev.rs', ctx)
@@ -371,7 +374,9 @@ use crate::aspec::*;''')
                    ensures within({B}, input.rv()), 0 <= it.index@ < specs@.len(),
                    {TOTAL} == attrs_end({B}, encoding, specs@, it.index@ + 1, {PEND}),
                    decreases input.rv().len'''},
-        before=[('let dynamic_form = input.read_uleb128_u16()?;', f'proof {{ lemma_ind_step({B}, {PEND} as int); }}')])
+        before=[('let dynamic_form = input.read_uleb128_u16()?;', f'proof {{ lemma_ind_step({B}, {PEND} as int); }}'),
+                ('let _ = input.read_null_terminated_slice()?;', 'let ghost v0 = input.rv();')],
+        after=[('let _ = input.read_null_terminated_slice()?;', 'proof { lemma_cstr_len0(v0, (input.rv().start - v0.start - 1) as nat); }')])
     sk.add('read::unit', sa)
     return sk
 
